@@ -962,7 +962,7 @@ def _enum_sched(tier):
             yield c
       # the same instance with pox.lib.util's real PipePinger over virtual pipes (threaded hub, base order 0)
       for base in ((0, 1) if p.get("tail") else (0,)):
-        for c in _dev_cases(scn, p, True, base, 1 if tier == "quick" else 2, pinger="real"):
+        for c in _dev_cases(scn, p, True, base, 2 if (tier == "thorough" and p.get("tail")) else 1, pinger="real"):
           yield c
   return gen
 
